@@ -140,7 +140,61 @@ def _gen_mesh(wing_type, nx, ny, symmetry, **kw):
     return md, mesh, twist_cp
 
 
+# Memory addresses are a source of nondeterminism like any other: whether a new object lands at the address of a dead
+# one is allocator luck in a user's script, and state keyed by id() depends on it. The scheduler owns it here: DEAD_IDS
+# holds the addresses of user surface dicts of Problems that were dropped and collected (filled by C20's drop op); the next
+# surface dict is then deliberately allocated at one of them, by allocating empty dicts until one lands there (the others
+# are released again). Nothing is patched: it is what a script that creates a few more dicts in between may get anyway.
+DEAD_IDS = []
+ADDRESS_REUSED = [0]
+
+
+def _dict_at_dead_address():
+    if not DEAD_IDS:
+        return None
+    dead = set(DEAD_IDS)
+    held = []
+    found = None
+    for _ in range(60000):
+        d = {}
+        if id(d) in dead:
+            found = d
+            break
+        held.append(d)
+    del held
+    if found is not None:
+        DEAD_IDS.remove(id(found))
+        ADDRESS_REUSED[0] += 1
+    return found
+
+
+def note_dead(model):
+    """Called right before a tenant is dropped: remember where its surface dicts live."""
+    for d in model.user_dicts:
+        if isinstance(d, dict) and "mesh" in d and "name" in d:
+            DEAD_IDS.append(id(d))
+    del DEAD_IDS[:-8]
+
+
 def _aero_surface(name, mesh, symmetry, twist_cp=None, viscous=True, wave=False, **kw):
+    s = _aero_surface_content(name, mesh, symmetry, twist_cp, viscous, wave, **kw)
+    if SHARE is not None and SHARE.get("level") == "surface":
+        # only tenants built from the identical configuration may share a surface dict: a builder for
+        # another configuration would write other properties into it after the first tenant's setup
+        # (that is the user editing a dict under a live Problem - user error, not an OAS defect)
+        key = ("surf", name, id(mesh), SHARE.get("ctx"))
+        if key in SHARE["reg"]:
+            return SHARE["reg"][key]  # the caller re-applies identical properties to the shared dict
+        SHARE["reg"][key] = s
+        return s
+    at = _dict_at_dead_address()
+    if at is not None:
+        at.update(s)
+        s = at
+    return s
+
+
+def _aero_surface_content(name, mesh, symmetry, twist_cp=None, viscous=True, wave=False, **kw):
     s = {
         "name": name,
         "symmetry": symmetry,
@@ -158,14 +212,6 @@ def _aero_surface(name, mesh, symmetry, twist_cp=None, viscous=True, wave=False,
         s["twist_cp"] = np.array(twist_cp, dtype=float)
     s.update(kw)
     s.update(_SURF_OPTS)
-    if SHARE is not None and SHARE.get("level") == "surface":
-        # only tenants built from the identical configuration may share a surface dict: a builder for
-        # another configuration would write other properties into it after the first tenant's setup
-        # (that is the user editing a dict under a live Problem - user error, not an OAS defect)
-        key = ("surf", name, id(mesh), SHARE.get("ctx"))
-        if key in SHARE["reg"]:
-            return SHARE["reg"][key]  # the caller re-applies identical properties to the shared dict
-        SHARE["reg"][key] = s
     return s
 
 
